@@ -6,6 +6,7 @@ start state."""
 from mcx.harness import *  # noqa
 from mcx.common import close, seed
 from collections import deque
+memo_observed_events()
 
 # ---------------------------------------------------------------------------
 # alphabet
@@ -126,7 +127,10 @@ def _quotes(scale):
 def initial(universe, fee, scale, deposit, rate=0.0):
     cs = contracts_of(universe)
     q0 = _quotes(scale)[0]
-    b = make_broker(cs, deposit=deposit, fixed=fee[0], proportional=fee[1], quote=q0, rate=rate)
+    b = make_broker(cs, deposit=deposit, fixed=fee[0], proportional=fee[1], quote=q0, rate=rate, markup=(0.01 if rate else 0.0))
+    if rate:
+        # start the accrual clock (as a first rebalance would) so that later rebalances do accrue interest
+        b.accrued_interest(T0, True)
     return b, Ledger(deposit, [c.symbol for c in cs]), cs
 
 
@@ -256,7 +260,7 @@ def observe(ob, ref, cs):
 # ---------------------------------------------------------------------------
 # BFS
 
-def bfs(universe, fee, depth, scale, deposit, ops, rate=0.0, on_state=None, max_states=None):
+def bfs(universe, fee, depth, scale, deposit, ops, rate=0.0, on_state=None, max_states=None, first_ops=None):
     """Breadth-first search.  Returns dict with counters, violations (list of
     (property, history, message)) and, if on_state is given, calls
     on_state(snapshot_bytes, ref, hist, depth) for every distinct state."""
@@ -275,7 +279,7 @@ def bfs(universe, fee, depth, scale, deposit, ops, rate=0.0, on_state=None, max_
         sb, ref, hist = frontier.popleft()
         if len(hist) >= depth:
             continue
-        for op in ops:
+        for op in (first_ops if (first_ops is not None and not hist) else ops):
             b = unsnap(sb)
             try:
                 nref, problems = apply_op(b, ref, cs, op, scale, fee)
